@@ -9,7 +9,7 @@ from vlib.verdict import Case
 
 PROPERTY = 'C08'
 MANIFEST = {
- 'level_text': "Lean 4 theorems, kernel-checked, about an executable model of irclib.Irc's CAP/SASL/registration machine (every handler with its exceptions and partial effects; FSM states, guards and expect_state lists, REQUEST_CAPABILITIES, _nickSetters, line/chunk sizes regenerated from /repo on every run). Proved for every state, configuration and server message, resp. for every history of messages and resets: req_subset and echo_needs_label (each word of a CAP REQ line is advertised and wanted; echo-message only next to labeled-response); wanted_bounded / wanted_rebuilt (the object's own REQUEST_CAPABILITIES is rebuilt from the class-level set at every reset: sasl exactly when this network has a usable mechanism); sasl_payload_invited / sasl_after_ack / sasl_entered_by_ack (credentials only as the answer to a server AUTHENTICATE inside INIT_SASL/CONNECTED_SASL, which is entered only while handling CAP ACK/NAK with sasl acknowledged); cap_end_once / cap_end_counted / cap_end_from_negotiation (at most one CAP END per connection epoch, none while an authentication is in progress); progress (deadlock-freedom of the bot against a formally defined conformant server, by a joint invariant over all joint histories: connected, or deliberately aborted, or the server still owes an answer, or the situation of finding C08-req-after-end). The conformant server of progress answers the oldest unanswered CAP REQ by ACK/NAK lines that each take some of its words (single or split answers, any order), acknowledges only what it advertises, may send CAP NEW and CAP DEL at any time after the final CAP LS, sends at most three AUTHENTICATE per mechanism, answers AUTHENTICATE * by a failure numeric, and treats a CAP REQ of an unregistered client as suspending the registration; kR6 is a concrete joint history with a split answer, a CAP NEW and a CAP DEL inside the negotiation. reset_fresh and epoch_clean (after Irc.reset every CAP/SASL/FSM/nick field, REQUEST_CAPABILITIES and both queues equal those of a new Irc; with the real SocketDriver a new socket is only opened right after such a reset, the rest of the old recv chunk is dropped). chunks_terminate (authenticate_generator: full-size lines, then one final line shorter than the chunk size or `+`) is what progress rests on for the credentials. join_needs_motd_end / join_only_after_motd_real: Owner's JOINs are queued only by the step in which Irc.do376 completed or dropped the connection, and along every real-driver history no JOIN is written to a socket while afterConnect is unset. sts_no_downgrade_real: along every real-driver history, while connected to a host with a stored STS policy the connection is forced-verified TLS (or ssl with the operator's own validation). Two statements are false on the code and recorded as findings with Lean counter-examples: 'no CAP REQ outstanding at CAP END' (cap_end_outstanding_witness; true parts cap_end_nothing_outstanding_partial - nothing outstanding unless a CAP NEW arrived after a mechanism was requested - and cap_requests_accounted) and progress after a CAP NEW between CAP END and the welcome (req_after_end_witness). An executable acceptor of the conformant-server relation, proved sound, lets the harness ask Lean whether each conformant script lies inside the domain of progress. The model is tied to the code by a differential correspondence run after every message (stub driver: adversarial, state-aware and conformant server scripts, configuration changes at run time; real SocketDriver over a fake socket) which also evaluates the property statement on the implementation's own takeMsg stream.",
+ 'level_text': "Lean 4 theorems, kernel-checked, about an executable model of irclib.Irc's CAP/SASL/registration machine (every handler with its exceptions and partial effects; FSM states, guards and expect_state lists, REQUEST_CAPABILITIES, _nickSetters, line/chunk sizes regenerated from /repo on every run). Proved for every state, configuration and server message, resp. for every history of messages and resets: req_subset and echo_needs_label (each word of a CAP REQ line is advertised and wanted; echo-message only next to labeled-response); wanted_bounded / wanted_rebuilt (the object's own REQUEST_CAPABILITIES is rebuilt from the class-level set at every reset: sasl exactly when this network has a usable mechanism); sasl_payload_invited / sasl_after_ack / sasl_entered_by_ack (credentials only as the answer to a server AUTHENTICATE inside INIT_SASL/CONNECTED_SASL, which is entered only while handling CAP ACK/NAK with sasl acknowledged); cap_end_once / cap_end_counted / cap_end_from_negotiation (at most one CAP END per connection epoch, none while an authentication is in progress); progress (deadlock-freedom of the bot against a formally defined conformant server, by a joint invariant over all joint histories: connected, or deliberately aborted, or the server still owes an answer, or the situation of finding C08-req-after-end). The conformant server of progress answers the oldest unanswered CAP REQ by ACK/NAK lines that each take some of its words (single or split answers, any order), acknowledges only what it advertises, may send CAP NEW and CAP DEL at any time after the final CAP LS, sends at most three AUTHENTICATE per mechanism, answers AUTHENTICATE * by a failure numeric, and treats a CAP REQ of an unregistered client as suspending the registration; kR6 is a concrete joint history with a split answer, a CAP NEW and a CAP DEL inside the negotiation. reset_fresh and epoch_clean (after Irc.reset every CAP/SASL/FSM/nick field, REQUEST_CAPABILITIES and both queues equal those of a new Irc; with the real SocketDriver a new socket is only opened right after such a reset, the rest of the old recv chunk is dropped). chunks_terminate (authenticate_generator: full-size lines, then one final line shorter than the chunk size or `+`) is what progress rests on for the credentials. join_needs_motd_end / join_only_after_motd_real: Owner's JOINs are queued only by the step in which Irc.do376 completed or dropped the connection, and along every real-driver history no JOIN is written to a socket while afterConnect is unset. sts_no_downgrade_real: along every real-driver history, while connected to a host with a stored STS policy the connection is forced-verified TLS (or ssl with the operator's own validation). nick_space_not_exhausted: the digit variations _getNextNick falls back to (10 000 of them reachable from any padded nick, pairwise distinct) are not exhausted while fewer than 10 000 nicks were tried on the connection (one per refusal), so its loop ends; the harness sends runs of up to 45 consecutive refusals under a per-message watchdog. Two statements are false on the code and recorded as findings with Lean counter-examples: 'no CAP REQ outstanding at CAP END' (cap_end_outstanding_witness; true parts cap_end_nothing_outstanding_partial - nothing outstanding unless a CAP NEW arrived after a mechanism was requested - and cap_requests_accounted) and progress after a CAP NEW between CAP END and the welcome (req_after_end_witness). An executable acceptor of the conformant-server relation, proved sound, lets the harness ask Lean whether each conformant script lies inside the domain of progress. The model is tied to the code by a differential correspondence run after every message (stub driver: adversarial, state-aware and conformant server scripts, configuration changes at run time; real SocketDriver over a fake socket) which also evaluates the property statement on the implementation's own takeMsg stream.",
  'level_note': "Trusted: Lean kernel, axioms propext/Classical.choice/Quot.sound only; harness/extractors/conn.py; the correspondence harness (generators bound what it sees; IrcMsg parsing supplies command/args/nick, property C05). Modelled and proved about: feedMsg dispatch, _nickSetters, reset/_setNonResettingVariables/resetSasl/_queueConnectMessages, capUpkeep, endCapabilityNegociation, tryNextSaslMechanism, _maybeStartSasl, doAuthenticate (plain, external, ecdsa with the signature as a parameter, scram-* with the library calls as parameters: step machine, unsupported hash, rejected challenge, bad server signature), sasl_response_sent, AuthenticateDecoder/authenticate_generator incl. which inputs base64 rejects, do903-908, doCapLs/Ack/Nak/New/Del, _addCapabilities, _onCapSts, _requestCaps (textwrap as greedy word fill), _getNextNick/do43x, do375/376/377/422 and Owner.do376/377/422, doPing, doError, doNick; SocketDriver.reconnect/_read loop/_sendIfMsgs as far as resets, sockets, the JOIN flag and the STS store are concerned. cap_end_once / sasl_after_ack / join / sts_no_downgrade also hold along every real-driver history (DReach). progress: stub-driver semantics (an abort ends the epoch), lock-step (the server sees the reaction to a line before it sends the next), at most 4300-digit integers, ASCII commands. pyxmpp2_scram is absent here: the SCRAM control flow of irclib is driven with a stand-in object exposing the same interface, whose answers are the model's parameters. Not modelled: user modes, zombie objects, requireStarttls, TLS itself, the random digits of the fallback nick (compared as a wildcard). Ghost fields endCount/saslAcked/epoch/joinBad are defined by the model and not observable in the implementation.",
  'technique': 'Lean 4 proof (refinement of every model function to an abstract move system + invariants by induction over arbitrary server message sequences; deadlock-freedom against a formal conformant-server relation) + table extraction + differential correspondence (stub driver and real SocketDriver over a fake socket)',
  'design_ref': 'DESIGN.md §6 C08',
@@ -21,7 +21,7 @@ THEOREMS = ['C08.req_subset', 'C08.wanted_bounded', 'C08.wanted_rebuilt', 'C08.e
             'C08.progress', 'C08.no_stuck_state', 'C08.jR11', 'C08.kR6', 'C08.req_after_end_witness', 'C08.srvMoveB_sound',
             'C08.cap_end_nothing_outstanding_partial', 'C08.cap_requests_accounted', 'C08.chunks_terminate', 'C08.sasl_answer_complete',
             'C08.cap_end_once_real', 'C08.sasl_after_ack_real', 'C08.join_needs_motd_end', 'C08.join_only_after_motd_real',
-            'C08.joinBad_flush', 'C08.sts_no_downgrade_real']
+            'C08.joinBad_flush', 'C08.sts_no_downgrade_real', 'C08.nick_space_not_exhausted', 'C08.lastDigit_exhausted']
 TRUSTED = ['Lean 4.33.0 kernel; axioms ⊆ {propext, Classical.choice, Quot.sound}',
            'harness/extractors/conn.py (FSM states and guards, expect_state lists, REQUEST_CAPABILITIES, _nickSetters, MAX_LINE_SIZE, AUTHENTICATE_CHUNK_SIZE → Gen/Conn.lean)',
            'harness/c08.py: script generators, stub driver, canonical observation, hex line protocol',
@@ -108,6 +108,9 @@ def boot():
                 b.excs.append(sys.exc_info()[0].__name__ if sys.exc_info()[0] else '?')
         b.log.exception = rec
         b.keyfile = os.path.join(b.dir, 'ecdsa.pem')
+        # a key path that exists but cannot be opened (OSError at challenge time), and one that opens but is no key (ValueError)
+        b.keydir = os.path.join(b.dir, 'ecdsa-key.d'); os.makedirs(b.keydir, exist_ok=True)
+        b.keygarbage = os.path.join(b.dir, 'garbage.pem'); open(b.keygarbage, 'w').write('-----BEGIN NOTHING-----\nAAAA\n')
         try:
             from cryptography.hazmat.primitives.asymmetric import ec
             from cryptography.hazmat.primitives import serialization
@@ -144,7 +147,8 @@ def apply_cfg(b, c, fresh=True):
     net.password.setValue(c['password'])
     net.sasl.username.setValue(c['sasluser'])
     net.sasl.password.setValue(c['saslpass'])
-    net.sasl.ecdsa_key.setValue({'': '', 'ok': b.keyfile, 'bad': os.path.join(b.dir, 'no-such-key.pem')}[c['ecdsakey']])
+    net.sasl.ecdsa_key.setValue({'': '', 'ok': b.keyfile, 'bad': os.path.join(b.dir, 'no-such-key.pem'),
+                                 'dir': b.keydir, 'garbage': b.keygarbage}[c['ecdsakey']])
     net.sasl.mechanisms.setValue(list(c['mechs']))
     net.sasl.required.setValue(bool(c['required']))
     net.certfile.setValue('/nonexistent/cert.pem' if c['certfile'] else '')
@@ -237,6 +241,27 @@ def observe(irc):
     o.wanted = set(irc.REQUEST_CAPABILITIES)
     return o
 
+class FeedTimeout(BaseException):
+    """raised by the watchdog inside Irc.feedMsg (BaseException: the firewall of feedMsg lets it through)"""
+
+FEED_LIMIT_S = 5
+
+def feed_guarded(irc, m):
+    """irc.feedMsg(m) under a watchdog: False when it did not return within FEED_LIMIT_S seconds"""
+    import signal
+    def boom(sig, frm):
+        raise FeedTimeout()
+    old = signal.signal(signal.SIGALRM, boom)
+    signal.alarm(FEED_LIMIT_S)
+    try:
+        irc.feedMsg(m)
+        return True
+    except FeedTimeout:
+        return False
+    finally:
+        signal.alarm(0)
+        signal.signal(signal.SIGALRM, old)
+
 def parse_line(b, line):
     """raw server line -> IrcMsg or None when the real parser rejects it"""
     try:
@@ -259,8 +284,15 @@ class ImplRun(object):
         if m is None or m.prefix == self.irc.nick:
             self.obs.append(None); self.lines.append(None)
             return None
+        if getattr(self, 'hung', None):
+            self.obs.append(None); self.lines.append(None)
+            return None
+        if not feed_guarded(self.irc, m):
+            # the script ends here: the bot is inside feedMsg for good
+            self.hung = 'Irc.feedMsg(%r) did not return within %d s (state %s)' % (line, FEED_LIMIT_S, self.irc.state.fsm.state.name)
+            self.obs.append(None); self.lines.append(None)
+            return None
         self.lines.append('msg\t%s\t%s\t%s' % (wire.enc(m.command), wire.enc_list(m.args), wire.enc(m.nick)))
-        self.irc.feedMsg(m)
         self.obs.append(observe(self.irc))
         return self.obs[-1]
     def reset(self):
@@ -482,17 +514,31 @@ class RealRun(object):
     def start(self):
         self.ops.append(('dstart',))
         self.lines.append('dstart')
-        self.drv = self.w.S.SocketDriver(self.irc)
-        self.irc.driver = self.drv
-        # SocketDriver.__init__ connects but does not send; the model's drvStart flushes: do the same
-        self.drv._sendIfMsgs()
-        self.obs.append(self._observe())
+        crash = None
+        try:
+            self.drv = self.w.S.SocketDriver(self.irc)
+        except Exception as e:          # the bot would not get past creating the driver of this network
+            crash = '%s: %s' % (type(e).__name__, e)
+            self.crashed = crash
+            class _Dead(object):
+                connected = False; servers = []; nextReconnectTime = None; inbuffer = b''
+            d = _Dead(); d.currentServer = self.b.drivers.Server(self.servers[0][0], self.servers[0][1], None, False)
+            self.drv = d
+        else:
+            self.irc.driver = self.drv
+            # SocketDriver.__init__ connects but does not send; the model's drvStart flushes: do the same
+            self.drv._sendIfMsgs()
+        o = self._observe()
+        o.x['crash'] = crash
+        self.obs.append(o)
         return self.obs[-1]
 
     def run(self, now, due, lines, partial=None):
         """one SocketDriver.run(); `lines` (+ an unterminated `partial` tail) arrive in one recv() on the
         socket current at select time.  The messages given to the model are what the driver will really
         parse: its buffered partial line + this chunk, split at LF."""
+        if getattr(self, 'crashed', None):
+            return self.obs[-1]
         b = self.b
         self.ops.append(('run', now, bool(due), list(lines), partial))
         self.w.clock.t = now
@@ -645,7 +691,7 @@ def real_oracle(run):
     for op, o in zip(run.ops, run.obs):
         x = o.x
         if x.get('crash'):
-            bad.append(('driver_crash', 'SocketDriver.run() raised %s (drivers.run would remove the driver for good); stored policies: %r' % (x['crash'], x['policies'])))
+            bad.append(('driver_crash', 'SocketDriver / SocketDriver.run() raised %s (drivers.run would remove the driver for good); stored policies: %r' % (x['crash'], x['policies'])))
         # --- sasl.required on the wire ("succeeded" = 903 received inside a SASL exchange, this epoch)
         for t in x['trace']:
             if t[0] == 'reset':
@@ -767,6 +813,30 @@ STS_LINES = ['CAP * LS :multi-prefix sts=port=6697,duration=100 batch', 'CAP * L
              'CAP * LS :batch sts=port=6697,duration=100000 sts=port=1', 'CAP * LS :sts=port=6697,duration=-5', 'CAP * NEW :sts=port=-1',
              'CAP * LS :~sts=port=6698,duration=10', 'CAP * LS :sts=port=6697,foo,duration=3600,preload']
 
+def gen_policy(r):
+    """an STS policy string: key=value tokens, value-less keys (the specification's `preload`, unknown ones) in any
+    position, empty tokens (leading / double / trailing commas), repeated keys, keys with an empty value"""
+    toks = []
+    if r.random() < 0.9:
+        toks.append('port=' + r.choice(['6697', '6697', '7000', '6667', '+6697', '66_97', '0', '-1', 'x', '', ' 6697']))
+    if r.random() < 0.8:
+        toks.append('duration=' + r.choice(['100', '2592000', '0', '1_0', '-5', '', 'x', '5000']))
+    for _ in range(r.choice([0, 0, 1, 1, 2, 3])):
+        toks.append(r.choice(['preload', 'preload', 'foo', 'foo=bar', 'foo=', '', '', 'port', 'duration', 'port=7001', 'duration=7', '=', '=x', 'PORT=1']))
+    r.shuffle(toks)
+    return ','.join(toks)
+
+def gen_sts_line(r):
+    if r.random() < 0.4:
+        return r.choice(STS_LINES)
+    item = 'sts=' + gen_policy(r)
+    others = [r.choice(['batch', 'multi-prefix', 'sasl', 'msgid']) for _ in range(r.choice([0, 1, 2]))]
+    caps = others + [item]
+    if r.random() < 0.15:
+        caps.append('sts=' + gen_policy(r))
+    r.shuffle(caps)
+    return r.choice(['CAP * LS :', 'CAP * LS :', 'CAP * LS * :', 'CAP * NEW :']) + ' '.join(caps)
+
 def gen_real_cfg(r):
     c = gen_cfg(r, 'real')
     for k in ('forced', 'certvalidation'):
@@ -783,7 +853,8 @@ def gen_real_cfg(r):
     k = r.randint(0, 5)
     if k >= 2:
         key = host if r.random() < 0.85 else host.lower()
-        c['policies'] = {key: r.choice(['port=6697,duration=1000', 'port=6697,duration=100000', 'port=7000,duration=0', 'port=6697,duration=500,preload'])}
+        c['policies'] = {key: r.choice(['port=6697,duration=1000', 'port=6697,duration=100000', 'port=7000,duration=0', 'port=6697,duration=500,preload',
+                                        'preload,port=6697,duration=100000', 'port=6697,,duration=100000,', 'foo,port=7000,duration=100000,port=6697'])}
         if k >= 3:
             c['lastdisc'] = {key: 100000 - r.choice([0, 10, 600, 999, 1001, 5000, 99999])}
     if r.random() < 0.15:
@@ -801,7 +872,7 @@ def script_real(r, cfg, n):
         for j in range(r.choice([0, 1, 1, 1, 2, 3, 4])):
             k = r.random()
             if k < (0.45 if j == 0 else 0.15):
-                lines.append(S + r.choice(STS_LINES))
+                lines.append(S + gen_sts_line(r))
             elif k < 0.4:
                 lines.append(r.choice(['ERROR :Closing link: (bye)', 'ERROR :You are connecting too fast', S + 'PING :vt']))
             else:
@@ -923,6 +994,7 @@ def safety_oracle(ops, obs, cfg=None):
     ends = 0; aborted = False; sasl_acked = False; welcomed = False
     answered = set()          # every capability the server ACKed or NAKed during the negotiation of this epoch
     srv_ack = set(); srv_nak = set()   # … ACKed / NAKed at any time in this epoch
+    nicks = set(m.args[0] for m in obs[0].msgs if m.command == 'NICK' and m.args)   # every nick asked for in this epoch
     prev = obs[0]
     cfg_next = cfg; cfg_epoch = cfg; changed = False
     for op, o in zip(ops, obs[1:]):
@@ -934,6 +1006,7 @@ def safety_oracle(ops, obs, cfg=None):
             continue
         if op[0] == 'reset':
             ends = 0; aborted = False; sasl_acked = False; welcomed = False; answered = set(); srv_ack = set(); srv_nak = set()
+            nicks = set(m.args[0] for m in o.msgs if m.command == 'NICK' and m.args)
             cfg_epoch = cfg_next
             if not changed and o.s.split('\t')[:13] != obs[0].s.split('\t')[:13]:
                 bad.append(('reset_fresh', 'after reset the observable state differs from a new Irc: %r vs %r' % (o.s, obs[0].s)))
@@ -965,6 +1038,10 @@ def safety_oracle(ops, obs, cfg=None):
                         bad.append(('cap_end_once', 'CAP END sent from state %s' % prev.fsm))
                     if not (o.req <= (o.ack | o.nak)):
                         bad.append(('cap_end_outstanding', 'CAP END sent while %r is requested but neither ACKed nor NAKed' % sorted(o.req - o.ack - o.nak)))
+                if m.command == 'NICK' and m.args and not prev.after:
+                    if m.args[0] in nicks:
+                        bad.append(('progress', 'NICK %r asked for again after it was refused earlier on this connection (%d nicks tried)' % (m.args[0], len(nicks))))
+                    nicks.add(m.args[0])
                 if m.command == 'JOIN' and not o.after and not o.calls:
                     bad.append(('join_needs_motd_end', 'JOIN %r queued although the end of the MOTD has not been handled (afterConnect unset, no abort; state %s)' % (m.args, o.fsm)))
                 if m.command == 'AUTHENTICATE':
@@ -1052,9 +1129,9 @@ def gen_cfg(r, stream):
     elif k == 6:
         c.update(mechs=['external', 'plain'], certfile=r.random() < 0.7, sasluser='u', saslpass='p')
     elif k == 7:
-        c.update(mechs=['ecdsa-nist256p-challenge', 'plain'], sasluser=r.choice(['u', 'u', 'n' * 300, 'n' * 299, 'n' * 600]), saslpass=r.choice(['', 'p']), ecdsakey=r.choice(['ok', 'bad', '']))
+        c.update(mechs=['ecdsa-nist256p-challenge', 'plain'], sasluser=r.choice(['u', 'u', 'n' * 300, 'n' * 299, 'n' * 600]), saslpass=r.choice(['', 'p']), ecdsakey=r.choice(['ok', 'ok', 'bad', 'dir', 'garbage', '']))
     elif k == 8:
-        c.update(mechs=['ecdsa-nist256p-challenge', 'external', 'plain'], sasluser='u', saslpass='p', ecdsakey=r.choice(['ok', 'bad']), certfile=True)
+        c.update(mechs=['ecdsa-nist256p-challenge', 'external', 'plain'], sasluser='u', saslpass='p', ecdsakey=r.choice(['ok', 'bad', 'dir', 'garbage']), certfile=True)
     else:
         c.update(mechs=r.choice([['scram-sha-256', 'plain'], ['scram-sha-256'], ['scram-sha-512', 'scram-sha-1', 'plain'],
                                  ['scram-sha-256-plus', 'scram-sha-256'], ['SCRAM-SHA-256', 'scram-SHA-1', 'plain'], ['scram-', 'scram-sha-1-plus']]),
@@ -1167,7 +1244,7 @@ class ConfServer(object):
         self.notify = r.choice([0, 0, 0, 0.05, 0.2])
         self.ls_done = False
         self.spare = [c for c in WANTED if c not in self.names]
-        self.collisions = r.choice([0, 0, 0, 1, 2, 3, 4])
+        self.collisions = r.choice([0, 0, 0, 0, 1, 2, 3, 4, 4, 15, 22, 45])
         self.auth_ok = r.random() < 0.6
         self.nak_prob = r.choice([0, 0, 0.3, 1])
         self.inq = []
@@ -1313,8 +1390,14 @@ class ConfServer(object):
 # ------------------------------------------------------------------------------------------
 def script_adversarial(r, cfg, n):
     run = ImplRun(cfg)
+    burst = 0
     for _ in range(n):
         x = r.random()
+        if burst or x > 0.985:
+            # a long run of nick refusals: the alternates run out, then the digit variations of the nick
+            burst = burst - 1 if burst else r.choice([14, 16, 25, 40])
+            run.msg(':' + SERVER + ' %s * %s :Nickname problem' % (r.choice(['433', '433', '432', '437']), 'test'))
+            continue
         if x < 0.03:
             run.reset()
         elif x < 0.045:
@@ -1459,6 +1542,8 @@ class XCase(Case):
 def make_case(run, kind, stuck=False):
     ops = [list(op) for op in run.ops]
     bad = safety_oracle(run.ops, run.obs, run.cfg)
+    if getattr(run, 'hung', None):
+        bad.append(('progress', run.hung))
     if stuck:
         last = run.last()
         bad.append(('progress', 'conformant server has answered everything, the bot is in state %s, sent nothing more and did not abort' % last.fsm))
